@@ -110,7 +110,47 @@ def ITE(c, a, b):
         if a is False and b is True:
             return NOT(c)
         return z3.If(c, B(a), B(b))
+    if is_sym(c) and (is_sym(a) or is_sym(b)):
+        # counters updated under one guard (x += 1 ... x -= 1 inside `if g:`) would otherwise pile up as
+        # If(g, If(g, x+1, x)-1, If(g, x+1, x)): specialise both arms on the guard first (bounded depth)
+        a2, b2 = _assume(a, c, True, 4), _assume(b, c, False, 4)
+        if a2 is not a or b2 is not b:
+            a2 = _simp(a2)
+            b2 = _simp(b2)
+            if (not is_sym(a2) and not is_sym(b2) and a2 == b2) or (is_sym(a2) and is_sym(b2) and a2.eq(b2)):
+                return a2
+            a, b = a2, b2
     return z3.If(c, I(a), I(b))
+
+
+def _simp(x):
+    if not is_sym(x):
+        return x
+    r = z3.simplify(x)
+    if z3.is_int_value(r):
+        return r.as_long()
+    return r
+
+
+def _assume(e, c, val, depth):
+    """e with every sub-term If(c, x, y) (same condition object) replaced by x (val) / y (not val); integer terms only"""
+    if not is_sym(e) or depth == 0:
+        return e
+    if z3.is_app(e):
+        if z3.is_app_of(e, z3.Z3_OP_ITE) and e.arg(0).eq(c):
+            return _assume(e.arg(1) if val else e.arg(2), c, val, depth - 1)
+        k = e.decl().kind()
+        if k in (z3.Z3_OP_ADD, z3.Z3_OP_SUB, z3.Z3_OP_ITE):
+            kids = [e.arg(i) for i in range(e.num_args())]
+            new = [_assume(x, c, val, depth - 1) for x in kids]
+            if any(n is not o for n, o in zip(new, kids)):
+                if k == z3.Z3_OP_ITE:
+                    return z3.If(new[0], new[1], new[2])
+                acc = new[0]
+                for n in new[1:]:
+                    acc = (acc + n) if k == z3.Z3_OP_ADD else (acc - n)
+                return acc
+    return e
 
 
 def EQ(a, b):
